@@ -196,6 +196,8 @@ def build_member(member, cfg):
                 for i in range(14)]
         o = build_obj(member, tf=tf, candles=cm.mk_candles(rows))
         o.calculate()
+        # ... and that its owner has looked at (anything an accessor remembers about the earlier run must not survive the move)
+        _ = (o.has_reading, o.reading(), o.prev_reading(), o.reading_count(), o.as_list(), str(o))
         return o
     if form == "settings":
         return build_obj(member, tf=tf).settings
